@@ -245,7 +245,14 @@ def main():
                 ch["eq"] = _safe(lambda: L == W)
                 ch["eq_rev"] = _safe(lambda: W == L)
                 ch["hash_eq"] = _safe(lambda: hash(L) == hash(W))
-            # a grammar must at least be equal to a second copy of itself read from the same file
+                # ... and differ from a different grammar (one more level / size unit)
+                g2 = dict(g)
+                for fld in ("depth", "size"):
+                    if fld in g2:
+                        g2[fld] += 1
+                other = _safe(lambda: build_grammar(g2))
+                if not isinstance(other, str) and _safe(lambda: other.rules != L.rules) is True:
+                    ch["neq_other"] = _safe(lambda: (L == other) is False and (other == L) is False)
             rep["others"].append({"what": g["kind"], "via": via, "desc": json.dumps(g), "checks": ch,
                                   "members": sum(1 for x in lo["member"] if x is True), "probes": len(progs)})
     print(json.dumps(rep))
